@@ -21,6 +21,7 @@ CHECKS="${*:-$(python3 -c "import json;print(' '.join(c['property_id'] for c in 
 cd $SV
 for c in $CHECKS; do
   out=$(./check $c "${TIER:-quick}" 2>&1); rc=$?
+  echo "$out" > /tmp/gmrs_scratch_last_$c.log
   nv=$(echo "$out" | grep -c '^VIOLATION')
   first=$(echo "$out" | grep -m1 'oracle=' | sed 's/step-count.*re-executions)://' | cut -c1-220)
   [ -z "$first" ] && first=$(echo "$out" | grep -m1 '^VIOLATION' | cut -c1-200)
